@@ -29,7 +29,7 @@ def params(tier):
     # single point and the full set
     if tier == "quick":
         return {"size": 3, "depth": 3, "chain_links": 1, "full_subsets_size": 2}
-    return {"size": 4, "depth": 3, "chain_links": 3, "full_subsets_size": 3}
+    return {"size": 4, "depth": 3, "chain_links": 2, "full_subsets_size": 2, "deep_kinds": ["coro", "func"]}
 
 
 def bounds(tier):
@@ -308,6 +308,8 @@ def run_prog(ctx):
         for kind in ("coro", "gen", "agen", "func"):
             if not ps.kind_ok(body, kind) or not ps.has(body, ps.WITH_KINDS):
                 continue
+            if ps_size(body) > 3 and kind not in p.get("deep_kinds", ("coro", "gen", "agen", "func")):
+                continue   # size-4 programs: coroutine and plain function only (stated in bounds)
             idx += 1
             if not ctx.mine(idx):
                 continue
